@@ -16,7 +16,7 @@ ARGS = {
     ("C18", "quick"): ["-modes", "grid,random", "-random", "300"],
     ("C18", "thorough"): ["-modes", "grid,random", "-random", "8000", "-depth", "4"],
 }
-PRIORITY = ["KModel", "KErr", "KFwd", "KBytes", "KDoc", "KSignIn", "KOther", "KFrame", "KLine", "KParse", "KFields", "KSer", "KDecode", "KLww", "KFresh"]
+PRIORITY = ["KModel", "KErr", "KFwd", "KBytes", "KDoc", "KSignIn", "KOther", "KFrame", "KLine", "KParse", "KFields", "KSer", "KIndent", "KDecode", "KLww", "KFresh"]
 MEANING = {
     "KModel": "harness defect: generated value outside the model's grammar",
     "KErr": "an error is returned where the model returns none, or the reverse",
@@ -32,8 +32,10 @@ MEANING = {
     "KSer": "serialized / serialized_hmac do not verify against the signer's input and result",
     "KDecode": "Go's own decoder disagrees with the expected image",
     "KLww": "Format result or final table is not last-writer-wins",
+    "KIndent": "the text format is not indented / the json format is not a single line",
     "KFresh": "a fresh id is empty or repeated",
 }
+DRIFT = ("KBytes", "KDoc", "KSignIn")
 DRIVER = {"C14": "fmth", "C18": "cloudh"}
 RUNFILE = {"C14": "Run_Formatters", "C18": "Run_CloudEvents"}
 STRESS_ROUNDS = {"quick": 30, "thorough": 400}
@@ -122,12 +124,21 @@ def run(ctx):
     by_case = {}
     for cid, step, opk, kind in mism:
         by_case.setdefault(int(cid), []).append((int(step), int(opk), kind))
-    # one line per kind of first disagreement (KErr before KFwd before the stored bytes ...), smallest case as the replay
+    # A case violates the property when one of the property's own observables disagrees (error / forwarding / what the
+    # stored bytes parse back to / frame ...).  A case in which ONLY the byte-for-byte comparison with the model's rendering
+    # (or the signer-input comparison that depends on it) differs, while every observation-only oracle of the property passes,
+    # is model drift: the property held on that case but the theorems no longer describe the code's bytes. It is recorded
+    # and printed as a note, it is not a VIOLATION.
     sigs = {}
     first = {}
+    drift = {}
     for cid, ms in by_case.items():
         ms.sort(key=lambda m: (m[0], PRIORITY.index(m[2]) if m[2] in PRIORITY else 99))
-        step, opk, kind = ms[0]
+        real = [m for m in ms if m[2] not in DRIFT]
+        if not real:
+            drift[cid] = ms
+            continue
+        step, opk, kind = real[0]
         first[cid] = kind
         n = _case_size(cases[cid])
         if kind not in sigs or n < sigs[kind][0]:
@@ -143,8 +154,18 @@ def run(ctx):
             "all_mismatches_of_case": [{"step": s_, "on": NODE[prop].get(o, o), "kind": k} for s_, o, k in ms],
             "case": c, "cases_failing_first_with_this_kind": affected, "cases_failing_in_any_way": len(by_case),
             "repro": "bin/check replay <this file>"})
-        what = "%s: %s on %s (%s) — case %d, %d cases affected" % (prop, sig, on, MEANING.get(sig, ""), cid, affected)
+        what = "%s: %s on %s (%s) -- case %d, %d cases affected" % (prop, sig, on, MEANING.get(sig, ""), cid, affected)
         ctx.violations.append({"match": "%s:%s@%s" % (drv, sig, on), "replay": rp, "what": what})
+    part["model_drift_cases"] = len(drift)
+    ctx.coverage["correspondence_intact"] = not drift and not by_case
+    if drift:
+        cid = min(drift, key=lambda i: _case_size(cases[i]))
+        rp = V.write_replay(ctx, "%s-model-drift" % drv, {
+            "kind": "model-drift", "engine": drv, "case": cases[cid],
+            "all_mismatches_of_case": [{"step": s_, "on": NODE[prop].get(o, o), "kind": k} for s_, o, k in drift[cid]],
+            "meaning": "the bytes the node stores differ from the model's rendering although every oracle of the property passes on them; "
+                       "the theorems about Json.render / CloudEvents.enc no longer describe this code", "cases": len(drift)})
+        ctx.log("# NOTE %s model drift in %d cases (bytes differ from the model, property oracles pass): %s" % (prop, len(drift), rp))
     ctx.coverage["evaluations"] += summ["cases"]
     ctx.coverage["distinct_nontrivial"] += summ["distinct_nontrivial"]
     ctx.coverage["traces_validated_against_impl"] = ctx.coverage.get("traces_validated_against_impl", 0) + summ["cases"]
